@@ -247,3 +247,250 @@ func SeenSetKeyCompleteness(p *core.Program, r *core.Report, rule string) {
 	}
 	r.RuleCounts[rule] = n
 }
+
+// LoopCarriedDefaults: a variable that is given its default value BEFORE a loop, is overwritten inside the loop only
+// under a condition that depends on the current element, is read later in the same iteration, and is never read
+// after the loop, is iteration-local state declared in the wrong place: an element for which the condition is false
+// inherits the value chosen for an earlier element instead of the default. (Accumulators, flags and results are read
+// after the loop and are not meant.)
+func LoopCarriedDefaults(p *core.Program, r *core.Report, rule string) {
+	n := 0
+	for _, fd := range p.Funcs {
+		info := fd.Pkg.TypesInfo
+		var loops []ast.Stmt
+		ast.Inspect(fd.Decl.Body, func(nd ast.Node) bool {
+			switch nd.(type) {
+			case *ast.ForStmt, *ast.RangeStmt:
+				loops = append(loops, nd.(ast.Stmt))
+			}
+			return true
+		})
+		for _, loop := range loops {
+			var body *ast.BlockStmt
+			var elems []types.Object
+			switch lp := loop.(type) {
+			case *ast.ForStmt:
+				body = lp.Body
+				if as, ok := lp.Init.(*ast.AssignStmt); ok {
+					for _, l := range as.Lhs {
+						if id, isID := l.(*ast.Ident); isID {
+							elems = append(elems, info.ObjectOf(id))
+						}
+					}
+				}
+			case *ast.RangeStmt:
+				body = lp.Body
+				for _, e := range []ast.Expr{lp.Key, lp.Value} {
+					if id, isID := e.(*ast.Ident); isID && id.Name != "_" {
+						elems = append(elems, info.ObjectOf(id))
+					}
+				}
+			}
+			if body == nil || len(elems) == 0 {
+				continue
+			}
+			mentionsElem := func(e ast.Node) bool {
+				found := false
+				ast.Inspect(e, func(m ast.Node) bool {
+					if id, ok := m.(*ast.Ident); ok {
+						for _, el := range elems {
+							if info.ObjectOf(id) == el {
+								found = true
+							}
+						}
+					}
+					return true
+				})
+				return found
+			}
+			// candidate variables: assigned (plain `=`) somewhere in the body
+			type cand struct {
+				v           *types.Var
+				condAssign  bool // assigned under an if inside the body
+				plainAssign bool // assigned unconditionally at the top level of the body
+				assignPos   token.Pos
+				elemDep     bool
+				inIf        []ast.Node // the if / case bodies that contain a conditional assignment
+			}
+			cands := map[*types.Var]*cand{}
+			var curIf ast.Node
+			var walk func(st ast.Stmt, underIf, condElem bool)
+			walk = func(st ast.Stmt, underIf, condElem bool) {
+				switch x := st.(type) {
+				case *ast.AssignStmt:
+					if x.Tok != token.ASSIGN {
+						return
+					}
+					for i, l := range x.Lhs {
+						id, ok := ast.Unparen(l).(*ast.Ident)
+						if !ok {
+							continue
+						}
+						v, ok := info.ObjectOf(id).(*types.Var)
+						if !ok || v.IsField() || v.Pkg() == nil || v.Parent() == v.Pkg().Scope() {
+							continue
+						}
+						if v.Pos() >= body.Pos() && v.Pos() < body.End() {
+							continue // declared inside the loop
+						}
+						if v.Pos() >= loop.Pos() && v.Pos() < body.Pos() {
+							continue // the loop's own variables
+						}
+						c := cands[v]
+						if c == nil {
+							c = &cand{v: v}
+							cands[v] = c
+						}
+						var rhs ast.Expr
+						if len(x.Rhs) == len(x.Lhs) {
+							rhs = x.Rhs[i]
+						} else if len(x.Rhs) == 1 {
+							rhs = x.Rhs[0]
+						}
+						// self-referencing updates are accumulators
+						selfRef := false
+						if rhs != nil {
+							ast.Inspect(rhs, func(m ast.Node) bool {
+								if rid, isID := m.(*ast.Ident); isID && info.ObjectOf(rid) == v {
+									selfRef = true
+								}
+								return true
+							})
+						}
+						if selfRef {
+							c.plainAssign = true // treat as accumulator: never reported
+							continue
+						}
+						if underIf {
+							c.condAssign = true
+							c.assignPos = x.Pos()
+							c.inIf = append(c.inIf, curIf)
+							if (rhs != nil && mentionsElem(rhs)) || condElem {
+								c.elemDep = true
+							}
+						} else {
+							c.plainAssign = true
+						}
+					}
+				case *ast.IfStmt:
+					ce := condElem || mentionsElem(x.Cond)
+					saved := curIf
+					if !underIf {
+						curIf = x // the outermost conditional statement of the loop body that holds the assignment
+					}
+					for _, s := range x.Body.List {
+						walk(s, true, ce)
+					}
+					if x.Else != nil {
+						walk(x.Else, true, ce)
+					}
+					curIf = saved
+				case *ast.BlockStmt:
+					for _, s := range x.List {
+						walk(s, underIf, condElem)
+					}
+				case *ast.SwitchStmt:
+					for _, cc := range x.Body.List {
+						cl := cc.(*ast.CaseClause)
+						ce := condElem || (x.Tag != nil && mentionsElem(x.Tag))
+						for _, e := range cl.List {
+							if mentionsElem(e) {
+								ce = true
+							}
+						}
+						saved := curIf
+						if !underIf {
+							curIf = x
+						}
+						for _, s := range cl.Body {
+							walk(s, true, ce)
+						}
+						curIf = saved
+					}
+				case *ast.TypeSwitchStmt:
+					for _, cc := range x.Body.List {
+						saved := curIf
+						if !underIf {
+							curIf = x
+						}
+						for _, s := range cc.(*ast.CaseClause).Body {
+							walk(s, true, condElem)
+						}
+						curIf = saved
+					}
+				}
+			}
+			for _, s := range body.List {
+				walk(s, false, false)
+			}
+			for v, c := range cands {
+				if !c.condAssign || c.plainAssign || !c.elemDep {
+					continue
+				}
+				// read inside the body, never read after the loop
+				readIn, readAfter := false, false
+				ast.Inspect(fd.Decl.Body, func(m ast.Node) bool {
+					id, ok := m.(*ast.Ident)
+					if !ok || info.Uses[id] != v {
+						return true
+					}
+					if id.Pos() >= body.Pos() && id.Pos() < body.End() {
+						readIn = true
+					} else if id.Pos() >= loop.End() {
+						readAfter = true
+					}
+					return true
+				})
+				// assignments are Uses too: count reads only (exclude pure LHS occurrences)
+				lhs := map[token.Pos]bool{}
+				ast.Inspect(fd.Decl.Body, func(m ast.Node) bool {
+					if as, ok := m.(*ast.AssignStmt); ok {
+						for _, l := range as.Lhs {
+							if id, isID := ast.Unparen(l).(*ast.Ident); isID && info.ObjectOf(id) == v {
+								lhs[id.Pos()] = true
+							}
+						}
+					}
+					return true
+				})
+				readIn, readAfter = false, false
+				insideAssignIf := func(pos token.Pos) bool {
+					for _, n := range c.inIf {
+						if n != nil && pos >= n.Pos() && pos < n.End() {
+							return true
+						}
+					}
+					return false
+				}
+				ast.Inspect(fd.Decl.Body, func(m ast.Node) bool {
+					id, ok := m.(*ast.Ident)
+					if !ok || info.Uses[id] != v || lhs[id.Pos()] {
+						return true
+					}
+					if id.Pos() >= body.Pos() && id.Pos() < body.End() {
+						// a read inside the conditional statement that assigns sees the fresh value, not a carried one
+						if !insideAssignIf(id.Pos()) {
+							readIn = true
+						}
+					} else if id.Pos() >= loop.End() {
+						readAfter = true
+					}
+					return true
+				})
+				if !readIn || readAfter {
+					continue
+				}
+				n++
+				r.Bad(rule, fmt.Sprintf("%s: %s (a %s) is reset to its default for every element of the loop", fd.Key(), describeVar(v), types.TypeString(v.Type(), func(pk *types.Package) string { return pk.Name() })), p.Pos(c.assignPos),
+					fmt.Sprintf("`%s` gets its default before the loop, is overwritten inside it only when the current element says so, is used later in the same iteration and never after the loop: an element that does not set it inherits the value of an earlier element instead of the default (a port entry without protocol takes the previous entry's protocol; a peer without namespaceSelector taints the next peer), so the result depends on the order of the list", v.Name()))
+			}
+		}
+	}
+	r.RuleCounts[rule+"-reports"] = n
+}
+
+// describeVar names a local in a way that survives renaming: its type and the function-relative order of declaration
+// are not available cheaply here, so the declared name is used for the message only; the construct carries the type.
+func describeVar(v *types.Var) string {
+	return "the per-element variable"
+}
